@@ -122,6 +122,43 @@ Proof.
   apply forallb_forall. intros i Hi. apply (H i). apply inline_ins_in. left; exact Hi.
 Qed.
 
+(* ---- where "missing and no known rule" comes from: a chain of statements that are not ready *)
+Inductive nrpath (g : graph) (s : sstate) : node -> node -> Prop :=
+| nrp_here n : nrpath g s n n
+| nrp_step n e i m :
+    g_producer g n = Some e -> es_ready (st_edge s e) = false -> In i (es_ins (st_edge s e)) ->
+    nrpath g s i m -> nrpath g s n m.
+
+Lemma ast_loop_missing_in (visit : node -> plan -> ast_res) : forall ins p err p',
+  ast_loop visit ins p = Some (false, Some err, p') ->
+  exists i q q', In i ins /\ visit i q = Some (false, Some err, q').
+Proof.
+  induction ins as [|i ins IH]; intros p err p' H; cbn [ast_loop] in H; [discriminate|].
+  destruct (visit i p) as [[[b e0] q]|] eqn:Hv; [|discriminate].
+  assert (Hrec : ast_loop visit ins q = Some (false, Some err, p') ->
+                 exists i0 q0 q', In i0 (i :: ins) /\ visit i0 q0 = Some (false, Some err, q')).
+  { intros H'. destruct (IH q err p' H') as [i0 [q0 [q' [Hi Hv0]]]]. exists i0, q0, q'. split; [right; exact Hi|exact Hv0]. }
+  destruct b; [apply Hrec; exact H|].
+  destruct e0 as [er|]; [|apply Hrec; exact H].
+  inversion H; subst. exists i, p, p'. split; [left; reflexivity|exact Hv].
+Qed.
+
+Lemma ast_missing_path g : forall f s dep n p m d p',
+  add_sub_target g f s dep n p = Some (false, Some (m, d), p') ->
+  nrpath g s n m /\ g_byloader g m = false /\ g_producer g m = None /\ ns_dirty (st_node s m) = true.
+Proof.
+  induction f as [|f IH]; intros s dep n p m d p' H; [discriminate|]. cbn [add_sub_target] in H.
+  destruct (g_producer g n) as [e|] eqn:Hp.
+  - destruct (es_ready (st_edge s e)) eqn:Hr; [discriminate|].
+    destruct (negb match p_want p e with None => true | Some _ => false end); [discriminate|].
+    destruct (ast_loop_missing_in _ _ _ _ _ H) as [i [q [q' [Hi Hv]]]].
+    destruct (IH _ _ _ _ _ _ _ Hv) as [Hpath Hrest]. split; [|exact Hrest].
+    apply (nrp_step g s n e i m Hp Hr Hi Hpath).
+  - destruct (ns_dirty (st_node s n) && negb (g_byloader g n))%bool eqn:Hc; [|discriminate].
+    inversion H; subst m d p'. apply andb_true_iff in Hc. destruct Hc as [Hd Hb]. apply negb_true_iff in Hb.
+    split; [apply nrp_here|]. split; [exact Hb|]. split; [exact Hp|exact Hd].
+Qed.
+
 (* ================================================================== Part SD: scan and plan with a deps log *)
 (* The facts HistProofs' Part S proves for fragment AB, for manifests whose statements may have
    [deps = gcc]: [RD] is [RI] with the inputs the scan left in the edge ([es_ins]) plus what the scan
@@ -689,6 +726,64 @@ Proof.
     intros m [<-|Hm]; [apply (proj1 (final_vrel g s1 s' n V' F1))|apply F'; exact Hm].
 Qed.
 
+(* ---- a deps statement has an output: loading a record never fails hard *)
+Lemma load_deps_not_err s e : (e < g_nedges g) -> load_deps g w s e <> LdErr.
+Proof.
+  intros He. unfold load_deps, edge_outs.
+  destruct (frag_D_edge g e HfD He) as [Hnd [_ Hlog]].
+  destruct (ei_deps (g_edge g e)) eqn:Hd; [discriminate|congruence|].
+  destruct (Hlog eq_refl) as [_ [Hne _]].
+  destruct (outs e) as [|o0 os]; [congruence|].
+  destruct (w_dlog w o0) as [[dm nodes]|]; [|discriminate].
+  destruct (Z.gtb _ _); discriminate.
+Qed.
+
+Lemma rnd_no_loaderrD : forall f stack n s vs e',
+  rnd f stack n (s, vs) = SLoadErr e' -> False.
+Proof.
+  induction f as [|f IH]; intros stack n s vs e' H; [discriminate|].
+  destruct (g_producer g n) as [e|] eqn:Hp.
+  2:{ cbn [recompute_node_dirty] in H. rewrite Hp in H. destruct (n_known (st_node s n)); discriminate. }
+  destruct (mark_of s e) eqn:Hm.
+  2:{ cbn [recompute_node_dirty] in H. rewrite Hp, Hm in H. discriminate. }
+  2:{ cbn [recompute_node_dirty] in H. rewrite Hp, Hm in H. discriminate. }
+  pose proof (Hwg n e Hp) as He.
+  rewrite (rnd_none_unfold g w f stack n e s vs Hp Hm) in H.
+  set (s2 := stat_outputs w (enter_edge s e) (edge_outs g e)) in *.
+  set (visit := rnd f (stack ++ [n])) in *.
+  assert (Hva : forall l a, visit_all visit l a = SLoadErr e' -> False).
+  { intros l a V.
+    destruct (visit_all_err (fun _ : sv => True) visit l a (SLoadErr e')) as [i [[sa va] [_ [_ Hv]]]];
+      [intros; exact I|exact I|exact V|exact I|].
+    apply (IH _ _ _ _ _ Hv). }
+  destruct (visit_all visit (ins_of s2 e) (s2, vs ++ ei_vals (g_edge g e))) as [[s3 vs3]|c|e1|] eqn:V1; try discriminate.
+  2:{ inversion H; subst e1. apply (Hva _ _ V1). }
+  unfold after_inputs in H.
+  destruct (eval_inputs g e (ins_of s3 e) 0 s3 None false) as [[s4 mri] dirty].
+  destruct (if dirty then (true, s4) else outputs_dirty_all g w e (edge_outs g e) mri s4) as [dirty1 s5].
+  destruct (es_deps_loaded (st_edge s e)); [discriminate|].
+  destruct dirty1; [destruct (load_deps_try g w s5 e); discriminate|].
+  destruct (load_deps g w s5 e) as [| |l] eqn:Hl; [discriminate|apply (load_deps_not_err s5 e He Hl)|].
+  destruct (visit_all visit l (splice_deps g s5 e l, vs3)) as [[s7 vs7]|c|e1|] eqn:V2; try discriminate.
+  - destruct (eval_inputs g e l _ s7 mri false) as [[s8 mri2] dirty2]. discriminate.
+  - inversion H; subst e1. apply (Hva _ _ V2).
+Qed.
+
+Lemma scan_no_loaderrD T e : scan g w T <> ScanLoadErr e.
+Proof.
+  unfold scan. generalize (init_state g) init_plan. induction T as [|t T IH]; intros s p H; cbn [add_targets] in H; [discriminate|].
+  pose proof (bat_result g w s p t) as Hb.
+  destruct (builder_add_target g w s p t) as [c|m0 d0|e0| |s1 p1]; try discriminate.
+  - inversion H; subst e0. unfold recompute_dirty in Hb.
+    assert (Hloop : forall qf queue s0 found, recompute_dirty_loop g w qf queue s0 found = SLoadErr e -> False).
+    { induction qf as [|qf IHq]; intros queue s0 found Hq; destruct queue as [|n queue]; cbn [recompute_dirty_loop] in Hq; try discriminate.
+      destruct (rnd (scan_fuel g) [] n (s0, [])) as [[s1 newv]|c|e1|] eqn:Hv; try discriminate.
+      - apply (IHq _ _ _ Hq).
+      - apply (rnd_no_loaderrD _ _ _ _ _ _ Hv). }
+    apply (Hloop _ _ _ _ Hb).
+  - apply (IH s1 p1 H).
+Qed.
+
 (* the inputs the scan left in a finished statement are manifest inputs or recorded deps *)
 Lemma RD_ins s e : RDat s e -> forall i, In i (ins_of s e) -> In i (eins e) \/ In i (valid_deps g w e).
 Proof.
@@ -907,6 +1002,33 @@ Proof.
     intros x [Hx|[<-|Hx]]; apply HD'; [left; left; exact Hx|left; right; reflexivity|right; exact Hx].
 Qed.
 
+(* a refused request: the missing source is reached from a target through statements that are not ready *)
+Lemma add_targets_missing_D : forall rest s p m d,
+  incl rest T -> add_targets g w s p rest = ScanMissing m d ->
+  SInv g w s -> RD s -> PID s noX p ->
+  exists t s1, In t rest /\ SInv g w s1 /\ RD s1 /\ node_final g s1 t /\ nrpath g s1 t m /\
+               g_byloader g m = false /\ g_producer g m = None /\ ns_dirty (nd s1 m) = true.
+Proof.
+  induction rest as [|t rest IH]; intros s p m d Hinc H HS HR HP; cbn [add_targets] in H; [discriminate|].
+  destruct (builder_add_target g w s p t) as [c|m0 d0|e| |s1 p1] eqn:Hb; try discriminate.
+  2:{ destruct (bat_GID s p t s1 p1 (Hinc t (or_introl eq_refl)) Hb HS HR HP) as [HS1 [HR1 [_ [_ [HP1 _]]]]].
+      destruct (IH s1 p1 m d (fun x Hx => Hinc x (or_intror Hx)) H HS1 HR1 HP1) as [t' [s' [Ht' Hrest]]].
+      exists t', s'. split; [right; exact Ht'|exact Hrest]. }
+  inversion H; subst m0 d0. clear H. unfold builder_add_target in Hb.
+  destruct (recompute_dirty g w s t) as [[s1 vn]|c|e|] eqn:Hrd; try discriminate.
+  unfold recompute_dirty in Hrd.
+  destruct (loop_allD _ _ _ _ _ _ Hrd HS HR) as [HS1 [HR1 [_ [F1 Hvn]]]]. subst vn.
+  specialize (F1 t (or_introl eq_refl)).
+  exists t, s1. split; [left; reflexivity|]. split; [exact HS1|]. split; [exact HR1|]. split; [exact F1|].
+  destruct (match g_producer g t with Some e => negb (es_ready (st_edge s1 e)) | None => true end).
+  - unfold plan_add_target in Hb.
+    destruct (add_sub_target g (plan_fuel g) s1 None t p) as [[[b err] pa]|] eqn:Ha; [|discriminate].
+    destruct b; [cbn [add_validation_targets] in Hb; discriminate|].
+    destruct err as [[m1 d1]|]; [|discriminate]. inversion Hb; subst m1 d1.
+    apply (ast_missing_path g _ _ _ _ _ _ _ _ Ha).
+  - cbn [add_validation_targets] in Hb. discriminate.
+Qed.
+
 Lemma RD_init : RD (init_state g).
 Proof. intros e He. cbn in He. discriminate. Qed.
 
@@ -1060,6 +1182,105 @@ Proof.
 Qed.
 
 
+
+(* ---- a request one manifest refuses for a missing source is refused by the other one as well *)
+Section Transfer.
+Local Open Scope nat_scope.
+Variables (gA gB : graph) (wA wB : world) (T : list node).
+Variables (sA sB : sstate) (pB : plan).
+Hypothesis HwfA : wf_spec gA.
+Hypothesis HwgA : wf_graph gA.
+Hypothesis HfA : frag_D gA = true.
+Hypothesis HwfB : wf_spec gB.
+Hypothesis HwgB : wf_graph gB.
+Hypothesis HfB : frag_D gB = true.
+Hypothesis Hprod : forall n, g_producer gB n = g_producer gA n.
+Hypothesis Houts : forall e, ei_outs (g_edge gB e) = ei_outs (g_edge gA e).
+Hypothesis Hmt : forall n, w_mtime wB n = w_mtime wA n.
+Hypothesis HSA : SInv gA wA sA.
+Hypothesis HRA : RD gA wA sA.
+Hypothesis HscanB : scan gB wB T = ScanOk sB pB.
+Hypothesis Hmd : forall n, must_dirty gA wA n -> must_dirty gB wB n.
+Hypothesis Hins : forall e i, e < g_nedges gA ->
+  es_mark (st_edge sA e) = VisitDone -> es_mark (st_edge sB e) = VisitDone ->
+  In i (es_ins (st_edge sA e)) ->
+  In i (es_ins (st_edge sB e)) \/ (g_producer gA i = None /\ w_mtime wA i <> 0%Z).
+Hypothesis Htopo : forall e i e', e < g_nedges gA -> es_mark (st_edge sA e) = VisitDone ->
+  In i (es_ins (st_edge sA e)) -> g_producer gA i = Some e' -> e' < e.
+Hypothesis HnipB : forall e, e < g_nedges gA -> es_mark (st_edge sB e) = VisitDone ->
+  ~ (ei_phony (g_edge gB e) = true /\ es_ins (st_edge sB e) = []).
+Hypothesis HblB : forall e m, e < g_nedges gA -> es_mark (st_edge sB e) = VisitDone ->
+  In m (es_ins (st_edge sB e)) -> g_producer gA m = None -> w_mtime wA m = 0%Z -> g_byloader gB m = false.
+Hypothesis HblT : forall t, In t T -> g_byloader gB t = false.
+
+Let AFB := accepted_factsD gB wB HwfB HwgB HfB T sB pB HscanB.
+
+Lemma nonready_transfer : forall e, e < g_nedges gA ->
+  es_mark (st_edge sA e) = VisitDone -> es_mark (st_edge sB e) = VisitDone ->
+  es_ready (st_edge sA e) = false -> es_ready (st_edge sB e) = false.
+Proof.
+  induction e as [e IH] using lt_wf_ind. intros He HdA HdB Hr.
+  destruct AFB as [[S1B _] [HRB _]]. destruct HSA as [S1A _].
+  destruct (HRA e HdA) as [D1A [_ [_ [D4A _]]]]. destruct (HRB e HdB) as [D1B [D2B [D3B _]]].
+  destruct (D4A Hr) as [[o [Ho Hdo]]|[i [e' [Hi [Hp Hr']]]]].
+  - assert (FA : node_final gA sA o) by (unfold node_final; rewrite (proj1 HwfA e o Ho); exact HdA).
+    pose proof (Hmd o (proj1 (proj1 (S1A o FA)) Hdo)) as HmB.
+    assert (HoB : In o (ei_outs (g_edge gB e))) by (rewrite Houts; exact Ho).
+    assert (FB : node_final gB sB o) by (unfold node_final; rewrite (proj1 HwfB e o HoB); exact HdB).
+    destruct (D3B o HoB (proj2 (proj1 (S1B o FB)) HmB)) as [Hc|Hrb]; [|exact Hrb].
+    exfalso. apply (HnipB e He HdB Hc).
+  - pose proof (Htopo e i e' He HdA Hi Hp) as Hlt.
+    assert (HdA' : es_mark (st_edge sA e') = VisitDone).
+    { pose proof (D1A i Hi) as F. unfold node_final in F. rewrite Hp in F. exact F. }
+    destruct (Hins e i He HdA HdB Hi) as [HiB|[Hc _]]; [|congruence].
+    assert (HdB' : es_mark (st_edge sB e') = VisitDone).
+    { pose proof (D1B i HiB) as F. unfold node_final in F. rewrite Hprod, Hp in F. exact F. }
+    apply (D2B i e' HiB); [rewrite Hprod; exact Hp|].
+    apply (IH e' Hlt ltac:(lia) HdA' HdB' Hr').
+Qed.
+
+Lemma walk_transfer : forall n m, nrpath gA sA n m ->
+  node_final gA sA n -> node_final gB sB n -> post gB sB n pB ->
+  g_producer gA m = None -> w_mtime wA m = 0%Z ->
+  post gB sB m pB /\ node_final gB sB m /\
+  (m = n \/ exists e, e < g_nedges gA /\ es_mark (st_edge sB e) = VisitDone /\ In m (es_ins (st_edge sB e))).
+Proof.
+  intros n m H. induction H as [n|n e i m Hp Hr Hi Hpath IH]; intros FA FB Pn Hpm Hz.
+  - split; [exact Pn|]. split; [exact FB|left; reflexivity].
+  - destruct AFB as [_ [HRB [[_ [_ [_ P3]]] _]]].
+    pose proof (HwgA n e Hp) as He.
+    assert (HdA : es_mark (st_edge sA e) = VisitDone) by (unfold node_final in FA; rewrite Hp in FA; exact FA).
+    assert (HdB : es_mark (st_edge sB e) = VisitDone) by (unfold node_final in FB; rewrite Hprod, Hp in FB; exact FB).
+    pose proof (nonready_transfer e He HdA HdB Hr) as HrB.
+    unfold post in Pn. rewrite Hprod, Hp in Pn. destruct (Pn HrB) as [Hw _].
+    destruct (HRA e HdA) as [D1A _]. destruct (HRB e HdB) as [D1B _].
+    destruct (Hins e i He HdA HdB Hi) as [HiB|[Hpi Hnz]].
+    + destruct (IH (D1A i Hi) (D1B i HiB) (P3 e Hw (fun F => F) i HiB) Hpm Hz) as [Pm [Fm Hwhere]].
+      split; [exact Pm|]. split; [exact Fm|]. right.
+      destruct Hwhere as [->|Hex]; [exists e; split; [exact He|split; [exact HdB|exact HiB]]|exact Hex].
+    + exfalso. inversion Hpath as [n0 Heq|n0 e0 i0 m0 Hp0 _ _ _]; subst; [contradiction|congruence].
+Qed.
+
+Theorem transfer_contra t m : In t T -> node_final gA sA t -> nrpath gA sA t m ->
+  g_producer gA m = None -> ns_dirty (st_node sA m) = true ->
+  (node_final gA sA m) -> False.
+Proof.
+  intros Ht FA Hpath Hpm Hd FmA.
+  destruct AFB as [[S1B _] [_ [_ HT]]]. destruct HSA as [S1A _].
+  assert (Hz : w_mtime wA m = 0%Z).
+  { apply (must_dirty_leaf_inv gA wA m (proj1 (proj1 (S1A m FmA)) Hd) Hpm). }
+  destruct (HT t Ht) as [FB Pt].
+  destruct (walk_transfer t m Hpath FA FB Pt Hpm Hz) as [Pm [Fm Hwhere]].
+  unfold post in Pm. rewrite Hprod, Hpm in Pm.
+  assert (HdB : ns_dirty (st_node sB m) = true).
+  { apply (proj2 (proj1 (S1B m Fm))). apply md_leaf; [rewrite Hprod; exact Hpm|rewrite Hmt; exact Hz]. }
+  rewrite HdB in Pm. cbn [andb] in Pm. apply negb_false_iff in Pm.
+  destruct Hwhere as [->|[e [He [HdBe Hin]]]].
+  - rewrite (HblT t Ht) in Pm. discriminate.
+  - rewrite (HblB e m He HdBe Hin Hpm Hz) in Pm. discriminate.
+Qed.
+
+End Transfer.
 
 (* ---- "missing and no known rule" is only ever said about a node of the manifest *)
 Lemma ast_loop_missing (visit : node -> plan -> ast_res) : forall ins p err p',
